@@ -182,7 +182,8 @@ def check_get_sed(ctx):
     out = I.call(gs, [_scalar(_sym('qname'))], selfv=o)
     where_ = _loc(gs)
     vocab = {'cnames', 'cubeval', 'cubeunc', 'cwav', 'cap', 'dist', 'qname', 'cvalid'}
-    fns = {'first', 'spectral'}
+    # (searchsorted on the names as they are stored - in no particular order - is a position of its own, not the position of the name)
+    fns = {'first', 'spectral', 'searchsorted'}
     if not isinstance(out, _Obj):
         _compare(ctx, 'AXIS', 'get_sed model index', where_, out, _alg.Poly(), findings=I.findings)
         return
